@@ -41,7 +41,7 @@ type C09Sc struct {
 
 var c09Outcomes = []ItemSc{
 	{Tok: "ok"}, {Tok: "et"}, {Tok: "ep"}, {Tok: "pe"}, {Tok: "ps"}, {Tok: "pi"}, {Op: "unrouted", Tok: "ok"}, {Tok: "ok", Ext: "critical"}, {Op: "discover", Tok: "ok"}, {Op: "unknown", Tok: "ok"},
-	{Tok: "pS"}, {Tok: "pn"}, {Tok: "ok", Ext: "plain"}, {Tok: "y1,ok"}, {Tok: "y2,et"}, {Tok: "pk"}, {Tok: "pK"}, {Tok: "pm"}, {Tok: "nn"}, {Tok: "y1,nn"}, {Op: "destroy", Tok: "ok"}, {Op: "archive", Tok: "et"}, {Op: "recover", Tok: "ok"}, {Op: "revoke", Tok: "pe"}, {Op: "destroy", Tok: "nn"}, {Op: "discover", Tok: "et"}, {Op: "discover", Tok: "pe"}, {Op: "discover", Tok: "nn"},
+	{Tok: "pS"}, {Tok: "pn"}, {Tok: "ok", Ext: "plain"}, {Tok: "y1,ok"}, {Tok: "y2,et"}, {Tok: "pk"}, {Tok: "pK"}, {Tok: "pm"}, {Tok: "nn"}, {Tok: "y1,nn"}, {Op: "destroy", Tok: "ok"}, {Op: "archive", Tok: "et"}, {Op: "recover", Tok: "ok"}, {Op: "revoke", Tok: "pe"}, {Op: "destroy", Tok: "nn"}, {Op: "discover", Tok: "et"}, {Op: "discover", Tok: "pe"}, {Op: "discover", Tok: "nn"}, {Tok: "eL"}, {Tok: "eW"}, {Tok: "y1,eL"},
 }
 
 func genReqSc(g *simrt.Tape, maxItems int) ReqSc {
@@ -413,7 +413,7 @@ func execC09(x *X, scAny any) {
 }
 
 // ---- floor: every batch up to a length bound over the outcome alphabet, completely
-var c09FloorAlphabet = []ItemSc{{Tok: "ok"}, {Tok: "et"}, {Tok: "ep"}, {Tok: "pe"}, {Tok: "ps"}, {Tok: "pi"}, {Op: "unrouted", Tok: "ok"}, {Tok: "ok", Ext: "critical"}, {Tok: "pk"}, {Tok: "pm"}}
+var c09FloorAlphabet = []ItemSc{{Tok: "ok"}, {Tok: "et"}, {Tok: "ep"}, {Tok: "pe"}, {Tok: "ps"}, {Tok: "eL"}, {Op: "unrouted", Tok: "ok"}, {Tok: "ok", Ext: "critical"}, {Tok: "pk"}, {Tok: "pm"}}
 
 func c09FloorMaxLen(tier string) int {
 	if tier == "thorough" {
